@@ -63,10 +63,10 @@ type ConcEvent struct {
 
 // ConcOutput is what the child reports.
 type ConcOutput struct {
-	Events  []ConcEvent `json:"events"`
-	Bugs    []string    `json:"bugs"`
+	Events  []ConcEvent    `json:"events"`
+	Bugs    []string       `json:"bugs"`
 	Hooks   map[string]int `json:"hooks"`
-	Harness string      `json:"harness,omitempty"`
+	Harness string         `json:"harness,omitempty"`
 }
 
 var markerRe = regexp.MustCompile(`mk[0-9]+w[0-9]+x`)
